@@ -76,6 +76,9 @@ PLAN = {
     "C20": [
         item("h_model", "c20_unsafe", 1_600_000, 64_000_000, max_len=(1024, 4096)),
         item("h_model", "categorical", 400_000, 16_000_000, param=19, max_len=(2048, 16384), ubonly=True, fuzz_runs=800_000),
+        # valid inputs: every constructor, conversion, view and accessor of C03's explorer under the UB-only oracle
+        item("h_model", "categorical", 200_000, 8_000_000, param=3, max_len=(2048, 16384), ubonly=True, fuzz_runs=400_000),
+        item("h_model", "leaky", 16_000, 750_000, param=3, max_len=(2048, 4096), ubonly=True, fuzz_runs=80_000),
         item("h_model", "leaky", 32_000, 1_500_000, param=19, max_len=(2048, 4096), ubonly=True, fuzz_runs=160_000),
         item("h_model", "c10_decode", 800_000, 24_000_000, max_len=(2048, 16384), ubonly=True),
         item("h_model", "c09_impossible", 400_000, 16_000_000, max_len=(2048, 16384), ubonly=True),
